@@ -684,6 +684,14 @@ var concInst = map[string][]string{
 	"mkdirtemp":  {"mkdirtemp /a t", "mkdirtemp /a/d t"},
 }
 
+// programs run on both file systems besides the template pairs
+var concFixed = []string{
+	"link /a/f /b/x , remove /a/f ; remove /a/f",
+	"link /a/f /b/x , remove /a/f ; remove /b/x",
+	"link /a/f /b/x , remove /b/x ; remove /b/x",
+	"link /a/f /b/x , removeall /a/f ; remove /a/f",
+}
+
 // both threads draw the same temp names first, so that the retry loops collide
 var concRand = [][]string{{"x", "r1", "r2", "r3", "r4", "r5"}, {"x", "r1", "q2", "q3", "q4", "q5"}, {"x", "r1", "r2", "s3", "s4", "s5"}}
 
@@ -718,6 +726,8 @@ type fcall struct {
 	Op   string   `json:"op"`
 	Args []string `json:"args"`
 	Res  string   `json:"res"`
+	Inv  int      `json:"inv"`  // step of the call's first granted lock (-1: none)
+	Resp int      `json:"resp"` // step in which it returned (-1: it did not)
 }
 
 // signature of a finding: the unordered multiset of call templates of the program, with results,
@@ -732,7 +742,37 @@ func findingSig(kind string, p cprog, e *cexec) string {
 		parts = append(parts, strings.Join(cs, ","))
 	}
 	sort.Strings(parts)
-	return kind + ":" + p.fsname + ":" + strings.Join(parts, "||") + ":" + concRel(p)
+	return kind + ":" + p.fsname + ":" + strings.Join(parts, "||") + ":" + concRel(p) + ":" + overlapSig(p, e)
+}
+
+// overlapSig: which calls of different threads overlapped in time (a call that returned before another got its
+// first lock cannot have raced with it); part of the signature so that the witness kept for a signature has the
+// same overlap pattern as every execution counted under it.
+func overlapSig(p cprog, e *cexec) string {
+	n := 0
+	for _, th := range p.threads {
+		n += len(th)
+	}
+	if n <= 2 {
+		return ""
+	}
+	var xs []string
+	for ti := range p.threads {
+		for tj := ti + 1; tj < len(p.threads); tj++ {
+			for ci := range p.threads[ti] {
+				for cj := range p.threads[tj] {
+					a, b := e.s.Threads[ti], e.s.Threads[tj]
+					before := func(x *sched.Thread, i int, y *sched.Thread, j int) bool {
+						return x.Resp[i] >= 0 && y.Inv[j] >= 0 && x.Resp[i] < y.Inv[j]
+					}
+					if !before(a, ci, b, cj) && !before(b, cj, a, ci) {
+						xs = append(xs, fmt.Sprintf("%d.%d~%d.%d", ti, ci, tj, cj))
+					}
+				}
+			}
+		}
+	}
+	return strings.Join(xs, ",")
 }
 
 func resClass(r string) string {
@@ -854,7 +894,7 @@ func (cr *concRun) note(kind string, p cprog, e *cexec, seqs []seqOutcome) {
 		for ti, th := range p.threads {
 			var cs []fcall
 			for ci, c := range th {
-				cs = append(cs, fcall{c.op, c.args, e.s.Threads[ti].Results[ci]})
+				cs = append(cs, fcall{c.op, c.args, e.s.Threads[ti].Results[ci], e.s.Threads[ti].Inv[ci], e.s.Threads[ti].Resp[ci]})
 			}
 			f.Calls = append(f.Calls, cs)
 		}
@@ -964,21 +1004,35 @@ func countEntries(ws []int, dir map[int]bool) bool {
 	return amb
 }
 
-// tempDuplicate: CreateTemp/MkdirTemp returned one name to two callers.
+// tempDuplicate: CreateTemp/MkdirTemp returned one name to two callers.  Not counted when the program also
+// removes or renames the directory (or an ancestor) successfully: the same name in two incarnations of a
+// directory is legitimate, such executions are left to the permutation oracle.
 func tempDuplicate(p cprog, e *cexec) bool {
 	seen := map[string]bool{}
+	dup := ""
 	for ti, th := range p.threads {
 		for ci, c := range th {
 			r := e.s.Threads[ti].Results[ci]
 			if (c.op == "createtemp" || c.op == "mkdirtemp") && strings.HasPrefix(r, "ok:") {
 				if seen[r] {
-					return true
+					dup = c.args[0]
 				}
 				seen[r] = true
 			}
 		}
 	}
-	return false
+	if dup == "" {
+		return false
+	}
+	for ti, th := range p.threads {
+		for ci, c := range th {
+			if (c.op == "remove" || c.op == "removeall" || c.op == "rename") && e.s.Threads[ti].Results[ci] == "ok" &&
+				(c.args[0] == dup || strings.HasPrefix(dup, c.args[0]+"/")) {
+				return false
+			}
+		}
+	}
+	return true
 }
 
 func randFor(n int) [][]string { return concRand[:n] }
@@ -1052,6 +1106,20 @@ func runConc(cfg config) {
 					}
 				}
 			}
+		}
+		// A': removals of ONE name that has a second hard link elsewhere (exactly one may succeed; link counts exact)
+		for _, fp := range concFixed {
+			th := strings.Split(fp, " ; ")
+			p := cprog{fsname: fsname, rand: randFor(len(th))}
+			for _, t := range th {
+				var cs []ccall
+				for _, c := range strings.Split(t, " , ") {
+					cs = append(cs, parseCall(c))
+				}
+				p.threads = append(p.threads, cs)
+			}
+			cr.stats["programs_fixed"]++
+			explore(p, bound, 0, func(e *cexec) { cr.check(p, e, true) })
 		}
 		// B: two calls in one or both threads (sampled per template pair)
 		perPair := 2
